@@ -151,12 +151,12 @@ type ksPair struct{ In, Out int }
 
 // Input describes one API call on the circuit map.
 type Input struct {
-	Kind OpKind
-	Keys []int    // commit/delete: in-keys; lookupIn/fail: [in]; close/lookupOut: [out]
-	Objs []uint16 // commit: object identity per position
-	Ks   []ksPair // open
-	Ch   int      // trim: channel; byHash: hash index
-	Start int     // trim
+	Kind  OpKind
+	Keys  []int    // commit/delete: in-keys; lookupIn/fail: [in]; close/lookupOut: [out]
+	Objs  []uint16 // commit: object identity per position
+	Ks    []ksPair // open
+	Ch    int      // trim: channel; byHash: hash index
+	Start int      // trim
 }
 
 func (in Input) String() string {
